@@ -126,6 +126,7 @@ func checkC08(p *ana.Prog, r *ana.Result) {
 	c08Fatal(p, r, ts, pset)
 	c08PacketConn(p, r, ts)
 	c08Accept(p, r)
+	c08RecvBuffer(p, r)
 	c08Cmsg(p, r, ts)
 	c08Progress(p, r, ts, pset)
 	c08Bounds(p, r, ts, pset)
